@@ -69,6 +69,11 @@ Theorem C02_transfer_keeps_position_sums :
   osum (ca k) (lw_accts w') = osum (ca k) (lw_accts w) /\ osum (cl k) (lw_accts w') = osum (cl k) (lw_accts w).
 Proof. exact transfer_keeps_position_sums. Qed.
 
+Theorem C02_transfer_pda_keeps_position_sums :
+  forall w old new signer na fw w' k, h_transfer_pda w old new signer na fw = Ok w' ->
+  osum (ca k) (lw_accts w') = osum (ca k) (lw_accts w) /\ osum (cl k) (lw_accts w') = osum (cl k) (lw_accts w).
+Proof. exact transfer_pda_keeps_position_sums. Qed.
+
 Theorem C02_close_removes_only_empty_positions :
   forall w a signer w', h_close w a signer = Ok w' ->
   exists A, get_macct w a = Ok A /\
@@ -125,6 +130,7 @@ Print Assumptions C02_zero_totals_no_positions.
 Print Assumptions C02_initial_world.
 Print Assumptions C02_instruction_level.
 Print Assumptions C02_transfer_keeps_position_sums.
+Print Assumptions C02_transfer_pda_keeps_position_sums.
 Print Assumptions C02_close_removes_only_empty_positions.
 Print Assumptions C02_purge_keeps_ledger.
 Print Assumptions C02_purge_effect_on_totals.
